@@ -11,6 +11,7 @@
 package main
 
 import (
+	"encoding/json"
 	"flag"
 	"fmt"
 	"os"
@@ -87,6 +88,9 @@ func cmdCheck(args []string) int {
 	c.Keep = *keep
 	defer c.cleanup()
 	start := time.Now()
+	if *replay != "" {
+		return doReplay(c, *replay, fn)
+	}
 	err = fn(c)
 	if err == nil {
 		err = c.infraErr
@@ -121,4 +125,53 @@ func envOr(k, d string) string {
 		return v
 	}
 	return d
+}
+
+// doReplay re-executes a recorded violation.  Assembly cases are re-run exactly;
+// for the other kinds the property's check is run again (the replay file shows the
+// concrete input that failed).
+func doReplay(c *Ctx, path string, fn checkFn) int {
+	b, err := os.ReadFile(path)
+	if err != nil {
+		fmt.Fprintf(os.Stderr, "INFRA: %v\n", err)
+		return 2
+	}
+	var rec struct {
+		Property string         `json:"property"`
+		Kind     string         `json:"kind"`
+		Detail   map[string]any `json:"detail"`
+	}
+	if err := json.Unmarshal(b, &rec); err != nil {
+		fmt.Fprintf(os.Stderr, "INFRA: %v\n", err)
+		return 2
+	}
+	if rec.Kind == "assembly" {
+		again, why, err := replayAssembly(c, rec.Detail)
+		if err != nil {
+			fmt.Fprintf(os.Stderr, "INFRA: %v\n", err)
+			return 2
+		}
+		for _, k := range c.knownPrinted {
+			fmt.Println(k)
+		}
+		if again {
+			fmt.Printf("VIOLATION property=%s replay=%s\n  %s\n", c.ID, path, why)
+			return 1
+		}
+		fmt.Printf("OK property=%s replay=%s not reproduced on the current tree %s\n", c.ID, path, why)
+		return 0
+	}
+	fmt.Fprintf(os.Stderr, "replay of kind %q: running the whole check of %s again; the failing input is in %s\n", rec.Kind, c.ID, path)
+	if err := fn(c); err != nil {
+		fmt.Fprintf(os.Stderr, "INFRA: %v\n", err)
+		return 2
+	}
+	if len(c.Violations) > 0 {
+		for _, v := range c.Violations {
+			fmt.Printf("VIOLATION property=%s replay=%s\n", c.ID, v)
+		}
+		return 1
+	}
+	fmt.Printf("OK property=%s nothing reproduced\n", c.ID)
+	return 0
 }
